@@ -16,6 +16,7 @@ int main (void)
       while (nr < G_MAXRULE && (c->rule[nr].n || c->rule[nr].lhs || c->rule[nr].anode || c->rule[nr].ntr)) nr++;
       if (ns != c->nsym) { printf ("%s: nsym %d but %d listed\n", c->id, c->nsym, ns); bad = 1; }
       if (nr > c->nrule) { printf ("%s: nrule %d but %d listed\n", c->id, c->nrule, nr); bad = 1; }
+      for (i = 0; i < c->nsym; i++) for (j = 0; j < i; j++) if (strcmp (c->sym[i].name, c->sym[j].name) == 0) { printf ("%s: symbol name %s twice\n", c->id, c->sym[i].name); bad = 1; }
       for (i = 0; i < c->nrule; i++)
         {
           const struct grule *r = &c->rule[i];
